@@ -25,3 +25,86 @@ def run(ctx):
         "rule": "the same trees with 1-2 rangelist objects in the root used through inside / not_inside and edited (append / extend "
                 "/ clear) between calls; half of the calls are free-standing over 1-3 leaves, 75% with an inline block",
     }
+    sublist_stream(ctx)
+
+
+def gen_sublist(rnd):
+    lists = []
+    for _ in range(rnd.randint(1, 2)):
+        kind = rnd.choice(["randsz", "randsz", "fixed"])
+        init = [rnd.randint(0, 15) for _ in range(rnd.randint(0, 3))]
+        l = {"kind": kind, "rand": rnd.random() < 0.6, "init": init}
+        if kind == "randsz":
+            lo = rnd.randint(0, 2)
+            l["lo"], l["hi"] = lo, lo + rnd.randint(1, 3)
+        if rnd.random() < 0.4:
+            l["foreach"] = rnd.randint(8, 15)
+        lists.append(l)
+    sub = rnd.choice(["attr", "attr", "rand", "rand"])
+    ops = []
+    for _ in range(rnd.randint(3, 7)):
+        r = rnd.random()
+        if r < 0.25:
+            cand = [i for i, l in enumerate(lists) if l["kind"] == "randsz"]
+            if cand:
+                ops.append(["append", rnd.choice(cand), rnd.randint(0, 15)])
+                continue
+        if r < 0.75:
+            ops.append(["randomize"])
+        elif r < 0.9:
+            ops.append(["randomize_with", rnd.randint(0, 15)])
+        else:
+            ops.append(["randomize_sub"])
+    return {"lists": lists, "sub": sub, "cross": rnd.random() < 0.5, "ops": ops}
+
+
+def sublist_stream(ctx):
+    """lists inside a sub-object (fixed / random size, random or not), the sub-object declared with attr or rand_attr (the
+    library has no rand_mode for whole objects): a call on the parent must leave a sub-object that is not random in it
+    untouched - its scalars, its list elements and the lengths of its lists"""
+    import random
+    import core
+    rnd = random.Random("C03-sublists-%d" % ctx.seed)
+    n = 150 if ctx.quick() else 3000
+    cases = [gen_sublist(rnd) for _ in range(n)]
+    obs = core.run_impl_parallel(ctx, "c03l_impl.py", cases)
+    calls = frozen = 0
+    for sc, o in zip(cases, obs):
+        if o.get("_crash") or "crash" in o:
+            core.add_violation(ctx, "library raised while building / using lists in a sub-object: %s" % str(o)[:300], {"case": sc, "observed": str(o)[:1500]})
+            continue
+        mode = sc["sub"] == "rand"
+        for op, rec in zip(sc["ops"], o["ops"]):
+            if op[0] == "rand_mode":
+                mode = bool(op[1])
+            if rec["outcome"].startswith("exc:"):
+                core.add_violation(ctx, "operation %r on an object with lists in a sub-object raised %s" % (op, rec["outcome"][:200]),
+                                   {"case": sc, "op": op, "observed": rec})
+                continue
+            if op[0] not in ("randomize", "randomize_with"):
+                continue
+            calls += 1
+            b, a = rec["before"], rec["after"]
+            if a["k"] != b["k"]:
+                core.add_violation(ctx, "the non-random scalar s.k changed over a call on the parent", {"case": sc, "op": op, "observed": rec})
+            if not (sc["sub"] == "rand" and mode):
+                frozen += 1
+                if (a["x"], a["lists"], a["sizes"]) != (b["x"], b["lists"], b["sizes"]):
+                    core.add_violation(ctx, "a sub-object that is not random in the call was changed by the parent's call: %r -> %r"
+                                       % ((b["x"], b["lists"], b["sizes"]), (a["x"], a["lists"], a["sizes"])), {"case": sc, "op": op, "observed": rec})
+            else:
+                for l, bl, al in zip(sc["lists"], b["lists"], a["lists"]):
+                    if l["kind"] == "fixed" and (len(al) != len(bl) or (not l["rand"] and al != bl)):
+                        core.add_violation(ctx, "a fixed-size list changed its length, or a non-random list its content, over a call: %r -> %r" % (bl, al),
+                                           {"case": sc, "op": op, "observed": rec})
+            for al, sz in zip(a["lists"], a["sizes"]):
+                if len(al) != sz:
+                    core.add_violation(ctx, "a list's size attribute (%d) disagrees with its length (%d) after a call" % (sz, len(al)),
+                                       {"case": sc, "op": op, "observed": rec})
+    ctx.coverage["evaluations"] += calls
+    ctx.coverage["sublist_stream"] = {
+        "scenarios": n, "calls_on_the_parent": calls, "of_which_with_a_non_random_sub_object": frozen,
+        "rule": "a parent with one sub-object (attr or rand_attr) holding 1-2 lists (random-size with a size "
+                "range, fixed-size random / non-random; optional foreach bound) and scalars; 3-7 operations: append, "
+                "randomize / randomize_with on the parent, randomize on the sub-object; public-API oracle (frame rule)",
+    }
